@@ -230,6 +230,59 @@ def check_shared(ctx, prog):
     ctx.notes.append("R8.shared is a bounded evaluation of the block-mapping slices (8-byte blocks, offsets < 20, counts < 26)")
 
 
+def check_opencache(ctx, prog):
+    """a field of the driver object that an inquiry function consults and that a define-mode function derives from the
+    schema (recdimid: set by ncbbio_def_dim when the unlimited dimension is defined) describes the file, not the session:
+    ncbbio_open has to derive it from the file it opens (a store of something other than a constant, or the field's
+    address handed to a driver inquiry), otherwise an opened file answers inquiries differently from a created one."""
+    read_by_inq = set()
+    for fn in prog.all_functions():
+        if fn.name.startswith("ncbbio_inq"):
+            for b, i, e in fn.elements():
+                for x in walk(e, into_pre=True):
+                    if x.get("k") == "mem" and x.get("rec") == "NC_bb":
+                        read_by_inq.add(x["f"])
+            for bid, blk in fn.blocks.items():
+                if blk.cond is not None:
+                    for x in walk(blk.cond, into_pre=True):
+                        if x.get("k") == "mem" and x.get("rec") == "NC_bb":
+                            read_by_inq.add(x["f"])
+    from_schema = set()
+    for fn in prog.all_functions():
+        if fn.name in ("ncbbio_def_dim", "ncbbio_def_var"):
+            for b, i, e in fn.elements():
+                for x in walk(e):
+                    if x.get("k") == "asg":
+                        l = strip(x["a"])
+                        if l.get("k") == "mem" and l.get("rec") == "NC_bb" and const_value(x["b"]) is None:
+                            from_schema.add(l["f"])
+    fields = sorted(read_by_inq & from_schema)
+    ctx.require(fields, "R4.opencache: no field of NC_bb is both set by a define function and read by an inquiry function")
+    fn = ctx.need_fn(prog, "ncbbio_open")
+    for f in fields:
+        ok = False
+        for b, i, e in fn.elements():
+            for x in walk(e, into_pre=True):
+                if x.get("k") == "asg":
+                    l = strip(x["a"])
+                    if l.get("k") == "mem" and l.get("f") == f and l.get("rec") == "NC_bb" and const_value(x["b"]) is None:
+                        ok = True
+                if x.get("k") == "call":
+                    for a in x.get("args", []):
+                        sa = strip(a)
+                        if isinstance(sa, dict) and sa.get("k") == "un" and sa.get("op") == "&":
+                            t = strip(sa["e"])
+                            if t.get("k") == "mem" and t.get("f") == f and t.get("rec") == "NC_bb":
+                                ok = True
+        inst = "ncbbio_open:%s" % f
+        if ok:
+            ctx.ok("R4.opencache", inst, "derived from the opened file")
+        else:
+            ctx.fail("R4.opencache", "ncbbio_open", f, "NC_bb.%s is consulted by the inquiry functions and set from the schema by the define "
+                     "functions, but ncbbio_open only stores a constant: on an opened file the inquiry answers as if the schema had no "
+                     "such object (the record dimension's length misses the records still in the log)" % f, fn=fn, line=fn.line, inst=inst)
+
+
 def run(ctx):
     ctx.rule("R2.flush", "visibility points flush the log before forwarding to the ncmpio driver")
     ctx.rule("R3.logdel", "log files are removed at close under the delete-on-close hint")
@@ -242,3 +295,16 @@ def run(ctx):
     check_logdel(ctx, prog)
     check_siblings(ctx, prog)
     check_shared(ctx, prog)
+    ctx.rule("R4.opencache", "schema-derived fields of the driver object that inquiries consult are derived from the file at open")
+    check_opencache(ctx, prog)
+    from rules import r9signcmp, r9nullarith
+    ctx.rule("R9.signcmp", "no ordering comparison sets an unsigned value against a negative constant (burst-buffer driver, library, tools)")
+    r9signcmp.check(ctx, ctx.program(groups=["lib", "bb", "util"]), "R9.signcmp")
+    ctx.rule("R9.nullarith", "burst-buffer driver: a pointer parameter the function tests against NULL is not used unprotected where the "
+             "NULL side of such a test can reach")
+    r9nullarith.check(ctx, prog, "R9.nullarith", min_params=12)
+    from rules import r8flushbatch
+    ctx.rule("R8.flushbatch", "each flush round gathers exactly the data-log bytes of the valid entries of its batch, cancelled entries "
+             "skipped after what precedes them has been read (bounded: logs of up to 4 entries)")
+    nfb = r8flushbatch.check(ctx, ctx.need_fn(prog, "ncbbio_log_flush_core"), "R8.flushbatch")
+    ctx.require(nfb >= 500, "R8.flushbatch: only %d logs evaluated" % nfb)
